@@ -395,6 +395,8 @@ func LocksOf(p *ir.Program, fn *ssa.Function, depth int) *LockAnalysis {
 func ResetLockCache() {
 	lockCache = map[*ssa.Function]*LockAnalysis{}
 	indexCache = map[*ir.Program]*CallIndex{}
+	ResetPathCaches()
+	tempPhiMemo = map[*ssa.Phi]ssa.Value{}
 }
 
 // LockHeldAt reports whether some mutex stored in the given field is held at instr (intra-procedural + entry state is not
